@@ -13,7 +13,7 @@
 (***************************************************************************)
 EXTENDS Steps, TLC, Json
 
-CONSTANTS MaxN, Names
+CONSTANTS MaxN, Names, Mode       \* Mode "pairs": every pair of trees; "single": every tree once (the second tree is a single node)
 VARIABLES d1, n1, d2, n2
 
 DepthSeqs(n) == {d \in [1..n -> 0..(n - 1)] : d[1] = 0 /\ \A i \in 2..n : d[i] >= 1 /\ d[i] <= d[i - 1] + 1}
@@ -36,7 +36,8 @@ State == LET a == Len(d1)  b == Len(d2)  N == a + b IN
    extras  |-> [i \in 1..N |-> <<>>],
    store   |-> 1..N]
 
-Init == \E t1 \in Trees, t2 \in Trees : d1 = t1[1] /\ n1 = t1[2] /\ d2 = t2[1] /\ n2 = t2[2]
+One == CHOOSE x \in Names : TRUE
+Init == \E t1 \in Trees, t2 \in (IF Mode = "pairs" THEN Trees ELSE {<<<<0>>, <<One>>>>}) : d1 = t1[1] /\ n1 = t1[2] /\ d2 = t2[1] /\ n2 = t2[2]
 Next == UNCHANGED <<d1, n1, d2, n2>>
 Spec == Init /\ [][Next]_<<d1, n1, d2, n2>>
 
@@ -47,4 +48,9 @@ EncodingOK == LET S == State IN
 Log == LET S == State IN
   PrintT(ToJson([k |-> "E", st |-> S, lvl |-> 1, same |-> (d1 = d2 /\ n1 = n2),
                  eq |-> {<<a, b>> \in NodesOf(S) \X NodesOf(S) : a # b /\ TreeEq(S, a, b)}]))
+(* C12 on every shape: the copy of every subtree of the first tree, as the function Steps!CopyF of the state *)
+LogCopy == LET S == State IN
+  \A n \in 1..Len(d1) : PrintT(ToJson([k |-> "T", from |-> S, op |-> [name |-> "copy", args |-> <<n>>, ret |-> CopyRet(S, n)], to |-> CopyF(S, n)]))
+CopyIsEqualAndDisjoint == LET S == State IN
+  \A n \in 1..Len(d1) : LET S2 == CopyF(S, n) IN TreeEq(S2, n, CopyRet(S, n)) /\ Desc(S2.kids, n) \cap Desc(S2.kids, CopyRet(S, n)) = {} /\ NoSharing(S2.kids)
 =============================================================================
